@@ -400,6 +400,16 @@ def make_stub(C: Contract, raw_fn):
         env = dict(bound)
         if gvals is not None:
             env.update(gvals)
+        # the declared input cases are implicit preconditions: a parameter that is a constant in every
+        # case of the contract (e.g. shape=None, padding=None) must have one of those values here
+        for pname, allowed in C.const_params(raw_fn).items():
+            if pname in bound:
+                v = bound[pname]
+                ok = any((v is a) or (type(v) is type(a) and not isinstance(v, SymBase) and v == a) for a in allowed)
+                if not ok and isinstance(v, SymBase):
+                    ok = None
+                if ok is not True:
+                    c.check(False if ok is False else sym.SymBool(z3.Or(*[sym.to_bool_term(v == a) for a in allowed if isinstance(a, (int, float))] or [z3.BoolVal(False)])), f"call-pre:{C.fn}#case:{pname}", kind="call-pre", callee=C.fn, note=f"argument {pname}={v!r} is outside the input cases the contract of {C.fn} covers ({allowed!r})")
         ghost_reqs = []
         for i, r in enumerate(C.requires):
             uses_ghost = bool(ghosts and set(inspect.signature(r).parameters) & ghosts)
